@@ -7,9 +7,11 @@ import (
 	"net/http"
 	"net/http/httptest"
 	"strings"
+	"time"
 
 	"github.com/samsarahq/thunder/graphql"
 	"verif/explore"
+	"verif/fix/fedfix"
 	"verif/fix/gqlfix"
 	"verif/harness/reg"
 	"vrt/rt"
@@ -285,6 +287,70 @@ func httpItem(query string, cancelFirst bool) *explore.Item {
 	}}
 }
 
+// gateway request whose sibling sub-query fails, and gateway request cancelled by a thread
+func fedItem(kind string) *explore.Item {
+	d := fedfix.DataSets()[0]
+	a := fedfix.Assignment{"users": "s1", "user": "s1", "devices": "s2", "everyone": "s1", "admins": "s2", "nobody": "s1", "noUsers": "s1", "boom": "s3"}
+	for i, f := range fedfix.ExtraFields {
+		a[f] = []string{"s1", "s2"}[i%2]
+	}
+	query := `{ users { email age device { temp } } devices { tags owner { email } } }`
+	if kind == "failing-sibling" {
+		query = `{ boom users { email age } devices { tags owner { email } } admins { hiding } }`
+	}
+	return &explore.Item{Name: "federation " + kind, Bound: -1, MaxSteps: 400000, MaxClock: 1000, Body: func(x *explore.Exec) {
+		ctx, cancel := rt.WithCancel(context.Background())
+		var g *fedfix.Gateway
+		var err error
+		rt.NoBranch(func() { g, err = fedfix.NewGateway(ctx, d, a, nil) })
+		if err != nil {
+			x.Fail("harness", "", "gateway: %v", err)
+			cancel()
+			return
+		}
+		returned := rt.NewVar(false)
+		var qerr error
+		rt.Go(func() {
+			q, perr := graphql.Parse(query, nil)
+			if perr != nil {
+				qerr = perr
+			} else {
+				_, _, qerr = g.Exec.Execute(ctx, q, nil)
+			}
+			returned.Store(true)
+		})
+		if kind == "cancelled" {
+			rt.Go(func() { cancel() })
+		}
+		rt.QuiesceWithin(time.Second)
+		if !returned.Peek() {
+			x.Fail("returns-on-cancel", "c15/gateway-blocks/"+kind, "the gateway request never returned")
+		}
+		if kind == "failing-sibling" && returned.Peek() && qerr == nil {
+			x.Fail("harness", "", "the failing sub-query did not fail the request")
+		}
+		x.Outcome("err=%v", qerr != nil)
+		x.Nontrivial()
+		cancel()
+		rt.QuiesceWithin(time.Second)
+	}, Post: func(x *explore.Exec, res *rt.Result) {
+		if res.Deadlock && !x.Failed() {
+			x.Fail("returns-on-cancel", "c15/gateway-blocks/"+kind, "threads blocked forever: %v", res.Blocked)
+		}
+		for _, p := range res.Panics {
+			x.Fail("never-panics", "c15/panic/gateway", "thread %s: %s", p.Thread, p.Value)
+		}
+	}}
+}
+
+func runFed(rp *explore.Report, tier string) {
+	for _, kind := range []string{"failing-sibling", "cancelled"} {
+		it := fedItem(kind)
+		it.Split = true
+		rp.Explore(it)
+	}
+}
+
 func runCancel(rp *explore.Report, tier string) {
 	for _, q := range []string{`{ count }`, `{ users { items { owner { name } } } }`} {
 		for _, first := range []bool{true, false} {
@@ -296,6 +362,9 @@ func runCancel(rp *explore.Report, tier string) {
 }
 
 func init() {
+	reg.Register(&reg.Harness{Property: "C15", Name: "c15/cancel-federation", Level: "model_checking", Bounds: [2]int{1, 2}, Run: runFed,
+		Item: func(name string) *explore.Item { return fedItem(strings.TrimPrefix(name, "federation ")) },
+		Rule: "part (d), federation: a three-service gateway request in which one sibling sub-query fails (the error group cancels the others), and a gateway request cancelled by a thread, under every schedule within the deviation bound (gateway construction runs on the default schedule); oracle: the request returns and no thread stays blocked"})
 	reg.Register(&reg.Harness{Property: "C15", Name: "c15/tokens", Level: "model_checking", Run: runTokens,
 		Rule: "sequential part (a): every sequence of <=4 (thorough 5) tokens over a 28-token GraphQL alphabet, bare and in two wrappers, plus 51 hand-written constructs (inline fragments without type condition, subscriptions, directive misuse, duplicate args/variables, fragment cycles, numeric overflow, conflicting aliases, wrong fragments under unions, ...) x 13 JSON variable maps, through Parse -> PrepareQuery -> Execute; oracle: an error or a result, never a panic. non-trivial = inputs that pass the parser"})
 	reg.Register(&reg.Harness{Property: "C15", Name: "c15/growth", Level: "model_checking", Run: runGrowth,
